@@ -325,6 +325,10 @@ pub fn generate(r: &mut Rng, c: &GenCfg) -> (Universe, Prob) {
         }
     }
     u.finalize();
+    // a provider whose filter_candidates answers in its own order (index scan, reversed, ...)
+    if r.chance(1, 5) {
+        u.filter_order = 1 + r.below(3) as u8;
+    }
     let ns = r.below(c.nsoft + 1);
     if ns > 0 {
         // "interesting" soft solvables: excluded, locked out, unknown deps
